@@ -731,9 +731,9 @@ PatchStr(l, j, cur, fd) ==
            ev == IF cur.x.w = 1 THEN ByteOf(v, 0) ELSE v               \* elements may be negative ints: two's complement
        IN IF i < Len(cur.x.d)
           THEN PatchStr(l, j + 1, [cur EXCEPT !.x.d[i + 1] = ev], fd)
-          ELSE \* the store lands beyond the literal's buffer (heap overflow); the element is not printed (StrPatchOOB)
-               IF Dev("StrPatchOOB") THEN PatchStr(l, j + 1, cur, fd \cup {"StrPatchOOB"})
-               ELSE PatchStr(l, j + 1, [cur EXCEPT !.x.d = [k \in 1..i + 1 |-> IF k <= Len(cur.x.d) THEN cur.x.d[k] ELSE IF k = i + 1 THEN ev ELSE 0]], fd)
+          ELSE \* element past the end of a literal shorter than its array: the literal is extended with zeros to i + 1
+               \* elements first (the missing extension was deviation StrPatchOOB, repaired in /repo by 0923a04)
+               PatchStr(l, j + 1, [cur EXCEPT !.x.d = [k \in 1..i + 1 |-> IF k <= Len(cur.x.d) THEN cur.x.d[k] ELSE IF k = i + 1 THEN ev ELSE 0]], fd)
 
 RECURSIVE EmitLoop(_, _, _)
 \* st = [off, bits, out, rel, fired, abort]
